@@ -57,12 +57,12 @@ package parsigdb
 //@ func (db *MemDB) trackExemptUnsafe
 //@ props C07
 //@ assigns db.entries, db.exemptEntries
+//@ ensures all(k2, key, distinctShares(old(db.entries)[k2]) ==> distinctShares(db.entries[k2]))
+//@ ensures len(db.exemptEntries[exemptEntryKey{ShareIdx: shareIdx, PubKey: k.PubKey, DutyType: k.Duty.Type}]) <= maxExemptEntriesPerShare || len(db.exemptEntries[exemptEntryKey{ShareIdx: shareIdx, PubKey: k.PubKey, DutyType: k.Duty.Type}]) <= len(old(db.exemptEntries)[exemptEntryKey{ShareIdx: shareIdx, PubKey: k.PubKey, DutyType: k.Duty.Type}])
 // An entry that has reached the threshold (and so has triggered aggregation) is never shrunk: otherwise the next matching
 // share brings it back to exactly the threshold and aggregation is triggered a second time (known finding F-C07c: the
 // per-share cap on never-expiring duties evicts from such entries too).
 //@ ensures all(k2, key, len(old(db.entries)[k2]) >= db.threshold ==> len(db.entries[k2]) >= len(old(db.entries)[k2]))
-//@ ensures all(k2, key, distinctShares(old(db.entries)[k2]) ==> distinctShares(db.entries[k2]))
-//@ ensures len(db.exemptEntries[exemptEntryKey{ShareIdx: shareIdx, PubKey: k.PubKey, DutyType: k.Duty.Type}]) <= maxExemptEntriesPerShare || len(db.exemptEntries[exemptEntryKey{ShareIdx: shareIdx, PubKey: k.PubKey, DutyType: k.Duty.Type}]) <= len(old(db.exemptEntries)[exemptEntryKey{ShareIdx: shareIdx, PubKey: k.PubKey, DutyType: k.Duty.Type}])
 
 // What store hands back is a copy of the stored list, never the stored slice itself.
 //@ func (db *MemDB) store
